@@ -7,6 +7,7 @@ pub mod c14;
 pub mod c15;
 pub mod c16;
 pub mod c17;
+pub mod c17b;
 
 use crate::engine::Engine;
 
